@@ -58,23 +58,23 @@ CHECKS = {
         ref="§7 C20",
     ),
     "C02": dict(
-        text="Inductive step over an arbitrary valid store state: the real Bucket API over MemoryStorage and SqliteStorage (its SQL text parsed and executed by a symbolic model of sqlite3) runs one operation with symbolic arguments from a pre-state of symbolic rows (ids, instants, durations, tags, AUTOINCREMENT mark); z3 decides on every path that the post-state tables equal the reference list model as multisets, that replace_last rewrites exactly the row a limit-1 read returned, delete removes exactly the addressed row, new ids are fresh, reads agree, and the other bucket is untouched.",
-        note="Trusted: z3; the SQL model (0 divergences from the real sqlite3 on 5.6k statements of the repo's own tests, tools/dualrun.py; every path's model re-run natively on a real database file); float microsecond arithmetic exact here (IEEE fidelity is C01). Bounded: <=2 (quick) / <=3 (thorough) live events + 1 foreign, one operation. Peewee backend: see level_note of C01.",
+        text="Inductive step over an arbitrary valid store state: the real Bucket API over MemoryStorage, SqliteStorage and PeeweeStorage (the SQL text the source / the peewee ORM emits is parsed and executed by a symbolic model of sqlite3) runs one operation with symbolic arguments from a pre-state of symbolic rows (ids, instants, durations, tags, AUTOINCREMENT mark); z3 decides on every path that the post-state tables equal the reference list model as multisets, that replace_last rewrites exactly the row a limit-1 read returned, delete removes exactly the addressed row, new ids are fresh, reads agree, and the other bucket is untouched.",
+        note="Trusted: z3; the SQL model (0 divergences from the real sqlite3 on 5.6k statements of the repo's own tests, tools/dualrun.py; every path's model re-run natively on a real database file); float microsecond arithmetic exact here (IEEE fidelity is C01). Bounded: <=2 (quick) / <=3 (thorough) live events + 1 foreign, one operation; three backends.",
         ref="§5, §7 C02",
     ),
     "C04": dict(
         text="Two buckets in an arbitrary valid state; one operation on A (insert, upsert, replace, replace_last, delete, update/delete bucket) with an UNCONSTRAINED event id (may belong to B) and instants; z3 decides on every path that B's table rows, API listing (order included) and metadata are identical afterwards, whether the call returned or raised.",
-        note="As C02. Bounded: 1+1 events (quick), up to 2+2 (thorough); memory and sqlite backends.",
+        note="As C02. Bounded: 1+1 events (quick), up to 2+2 (thorough); memory, sqlite and peewee backends; includes a rejected bulk insert while the other bucket has buffered writes.",
         ref="§7 C04",
     ),
     "C03": dict(
-        text="Windowed reads: stored events with symbolic instants / durations (any overlap, nesting, zero length), window start / end as arbitrary microseconds with their own symbolic UTC offsets (each optionally absent) and every limit in [-2, N+1]; the real Bucket.get / get_eventcount over memory and sqlite run on the shadows (SQL through the sqlite3 model, float window edges with an explicit rounding-noise model) and z3 decides MUST subset result subset MAY (2 ms tolerance), no duplicates, newest-first, limit = prefix of the unlimited read, count between |MUST| and |MAY|, window rounding, and that returned events equal stored rows.",
-        note="As C02. Events <= 24 h. Bounded: N<=2 (quick), 3 (thorough). The clipping (peewee) backend is not covered yet.",
+        text="Windowed reads: stored events with symbolic instants / durations (any overlap, nesting, zero length), window start / end as arbitrary microseconds with their own symbolic UTC offsets (each optionally absent) and every limit in [-2, N+1]; the real Bucket.get / get_eventcount over memory, sqlite and peewee run on the shadows (SQL through the sqlite3 model, float window edges with an explicit rounding-noise model) and z3 decides MUST subset result subset MAY (2 ms tolerance), no duplicates, newest-first, limit = prefix of the unlimited read, count between |MUST| and |MAY|, window rounding, and that returned events equal stored rows.",
+        note="As C02. Events <= 24 h. Bounded: N<=2 (quick), 3 (thorough); peewee (the clipping backend): N=1 all window shapes, N=2 with at most one edge; SQLite's julianday/strftime date math is a contract stub (within 1 ms, arbitrary inside that band).",
         ref="§7 C03",
     ),
     "C06": dict(
         text="Inductive single step over the sqlite commit machinery: symbolic counter, symbolic number of buffered elementary writes (<= counter <= 50), symbolic age of the last flush and symbolic clock readings; every operation kind in lazy and eager mode. z3 decides that bucket operations and reads leave nothing buffered, that after any event write buffered writes <= counter <= 50, that single-event / bucket operations are not split by a commit, and that eager mode leaves nothing buffered. The crash image is the model's committed snapshot.",
-        note="TRUSTED and not verified: SQLite's atomic commit / rollback of everything since the last COMMIT on process death (the 'prefix in issue order' half of the property rests on it). Native validation observes the file through a second real connection. Peewee's autocommit configuration not covered yet.",
+        note="TRUSTED and not verified: SQLite's atomic commit / rollback of everything since the last COMMIT on process death (the 'prefix in issue order' half of the property rests on it). Native validation observes the file through a second real connection. Includes rejected bucket operations (no rollback of buffered writes). Peewee commits per statement by construction (isolation_level=None), observed in the stub but not asserted separately.",
         ref="§5.2, §7 C06",
     ),
     "C18": dict(
@@ -94,7 +94,7 @@ CHECKS = {
     ),
     "C07": dict(
         text="The standard heartbeat loop (get(limit=1), heartbeat_merge, replace_last | insert) written over the real Bucket API is run (a) as an inductive step from a bucket holding an arbitrary reduced stream with another populated bucket sharing the database and (b) on whole streams from the empty bucket; z3 decides that the bucket equals the real heartbeat_reduce of the stream, that earlier events are untouched and the other bucket is unchanged.",
-        note="As C02 / C08. |R|<=2, k<=3 (quick); |R|<=3, k<=4 (thorough); memory and sqlite.",
+        note="As C02 / C08. |R|<=2, k<=3 (quick); |R|<=3, k<=4 (thorough); memory, sqlite and peewee.",
         ref="§7 C07",
     ),
     "C12": dict(
